@@ -554,3 +554,90 @@ theorem checkInputs_ok (T : Tables) (e : Eff) (hn : e.Numeric) (hinv : e.pl.Inv)
     exact ⟨pl', by simp [h1], h2⟩
 
 end Dfols.Py
+
+namespace Dfols.Py
+
+/-! ### `prepare` on the documented domain -/
+
+/-- not one of the two situations the model declines (0-d `x0`; `scaling_within_bounds` effective with mis-shaped arrays) -/
+def Args.modelled (a : Args) : Bool :=
+  match a.x0shape with
+  | [] => false
+  | n :: _ => !a.scal || (a.x0shape == [n] && a.xlShape == some [n] && a.xuShape == some [n])
+
+def Args.Modelled (a : Args) : Prop := a.modelled = true
+
+theorem Args.modelled_cons {a : Args} {n : Nat} {rest : List Nat} (hx : a.x0shape = n :: rest) (hm : a.Modelled) :
+    (a.scal && !(n :: rest == [n] && a.xlShape == some [n] && a.xuShape == some [n])) = false := by
+  unfold Args.Modelled Args.modelled at hm
+  rw [hx] at hm
+  cases hs : a.scal
+  · simp
+  · simp only [hs, Bool.not_true, Bool.false_or] at hm
+    rw [hm]; rfl
+
+/-- the documented argument types: `npt`, `maxfun` ints (or omitted), `rhobeg` a number (or omitted), `rhoend` a number,
+    `lh` a number whenever it is looked at, `user_params` a dictionary (no repeated key) of known keys -/
+structure Args.InDomain (T : Tables) (a : Args) : Prop where
+  modelled : a.Modelled
+  lh : a.hasH = true → a.lh.isNone = false → a.lh.num?.isSome = true
+  npt : a.npt = .none ∨ ∃ i, a.npt = .int i
+  maxfun : a.maxfun = .none ∨ ∃ i, a.maxfun = .int i
+  rhobeg : a.rhobeg = .none ∨ a.rhobeg.num?.isSome = true
+  rhoend : a.rhoend.num?.isSome = true
+  known : ∀ kv ∈ a.userParams.getD [], kv.1 ∈ T.defaults.map (·.1)
+  dict : ((a.userParams.getD []).map (·.1)).Nodup
+
+def Args.n (a : Args) : Nat := a.x0shape.headD 0
+
+/-- the sizes `ParameterList.__init__` receives on the documented domain -/
+def Args.sizes (a : Args) : Sizes :=
+  { n := a.n,
+    npt := match a.npt with | .int i => i | _ => (a.n : Int) + 1,
+    maxfun := match a.maxfun with | .int i => i | _ => min (100 * ((a.n : Int) + 1)) 1000,
+    noise := a.noise }
+
+theorem get?_init_unchanged {d : List (String × DExpr)} {s : Sizes} {k : String} {p : Param}
+    (h : (PList.init d s).get? k = some p) : p.changed = false :=
+  PList.unchanged_init d s p (PList.find_mem h)
+
+/-- on the documented domain the preparation succeeds; the parameter list holds, under every key, the user's value if
+    one (other than `None`) was given and the default otherwise -/
+theorem prepare_ok (T : Tables) (a : Args) (h : a.InDomain T) :
+    ∃ pl, prepare T a = .ok (mkEff a a.n pl) ∧ (mkEff a a.n pl).Numeric ∧ pl.Inv ∧ pl.keys = T.defaults.map (·.1) ∧
+      (∀ k, pl.val k = PList.effective (a.userParams.getD []) k ((PList.init T.defaults a.sizes).val k)) := by
+  have hm := h.modelled
+  cases hx : a.x0shape with
+  | nil => simp [Args.Modelled, Args.modelled, hx] at hm
+  | cons n rest =>
+    have hn : a.n = n := by simp [Args.n, hx]
+    obtain ⟨nptI, hnptI, hnptS⟩ : ∃ i, pyInt (a.effNpt n) = .ok i ∧ a.sizes.npt = i := by
+      rcases h.npt with hnone | ⟨i, hi⟩
+      · exact ⟨(n : Int) + 1, by simp [Args.effNpt, hnone, PyVal.isNone, pyInt], by simp [Args.sizes, hnone, hn]⟩
+      · exact ⟨i, by simp [Args.effNpt, hi, PyVal.isNone, pyInt], by simp [Args.sizes, hi]⟩
+    obtain ⟨mfI, hmfI, hmfS⟩ : ∃ i, pyInt (a.effMaxfun n) = .ok i ∧ a.sizes.maxfun = i := by
+      rcases h.maxfun with hnone | ⟨i, hi⟩
+      · exact ⟨min (100 * ((n : Int) + 1)) 1000, by simp [Args.effMaxfun, hnone, PyVal.isNone, pyInt], by simp [Args.sizes, hnone, hn]⟩
+      · exact ⟨i, by simp [Args.effMaxfun, hi, PyVal.isNone, pyInt], by simp [Args.sizes, hi]⟩
+    have hsz : (⟨(n : Int), nptI, mfI, a.noise⟩ : Sizes) = a.sizes := by
+      rw [← hnptS, ← hmfS]; simp [Args.sizes, hn]
+    obtain ⟨pl, hup, hval⟩ := PList.update_effect (pl := PList.init T.defaults a.sizes) (ups := a.userParams.getD []) h.dict
+      (fun kv hkv => by rw [PList.keys_init]; exact h.known kv hkv)
+      (fun kv _ p hp => get?_init_unchanged hp)
+    have hkeys : pl.keys = T.defaults.map (·.1) := by rw [PList.update_keys hup, PList.keys_init]
+    have hinv : pl.Inv := PList.inv_update (PList.inv_of_unchanged (PList.unchanged_init _ _)) hup
+    have hnotun := Args.modelled_cons hx hm
+    refine ⟨pl, ?_, ⟨?_, ?_, ?_, ?_, ?_⟩, hinv, hkeys, hval⟩
+    · unfold prepare
+      simp only [hx, hnotun, Bool.false_eq_true, ↓reduceIte, hnptI, hmfI, hsz, hup, hn]
+    · exact h.lh
+    · rcases h.npt with hnone | ⟨i, hi⟩ <;> simp [mkEff, Args.effNpt, *, PyVal.isNone, PyVal.num?]
+    · rcases h.rhobeg with hnone | hnum
+      · simp [mkEff, Args.effRhobeg, hnone, PyVal.isNone, PyVal.num?]
+      · have : a.rhobeg.isNone = false := by
+          cases hr : a.rhobeg <;> simp_all [PyVal.num?, PyVal.isNone]
+        simp [mkEff, Args.effRhobeg, this, hnum]
+    · exact h.rhoend
+    · rcases h.maxfun with hnone | ⟨i, hi⟩ <;> simp [mkEff, Args.effMaxfun, *, PyVal.isNone, PyVal.num?]
+
+end Dfols.Py
